@@ -3,6 +3,7 @@ package main
 import (
 	"context"
 	"fmt"
+	"github.com/brimdata/super/lakeparse"
 	"os"
 	"sort"
 	"strings"
@@ -96,6 +97,17 @@ func runHistory(res *Result, cfg PoolCfg, ops []HOp) error {
 					}
 				} else {
 					second[c.ID] = got
+				}
+				// the same commit through the vector runtime: an aggregate the planner
+				// vectorizes when every object of the commit has a vector copy (sum over an
+				// integer field at parallelism 2) must keep giving what the plain scan of
+				// the commit gives, whatever was added, refused or removed later
+				if wantV, werr := RunQuery("sum(id)", strings.Join(got, "\n")); werr == nil {
+					gotV, errV := env2.QueryAt(fmt.Sprintf("from p@%s | sum(id)", c.ID), 2, &lakeparse.Commitish{Pool: "p", Branch: c.ID.String()})
+					res.Count("second_handle_vector_requeries")
+					if errV != nil || strings.Join(gotV, " ") != strings.Join(wantV, " ") {
+						res.Fail(Failure{Kind: "oracle", Sig: "C13:commit-aggregate-differs-from-scan:after-" + op.Kind, Detail: fmt.Sprintf("after %s, `sum(id)` at commit %s (parallelism 2, vector copies used when complete) returns %v (err=%v); the plain scan of the same commit holds %d values whose sum(id) is %v", op.Kind, c.ID, gotV, errV, len(got), wantV), Replay: map[string]any{"pool": cfg.String(), "history": lr.Log}, Expected: strings.Join(wantV, " "), Observed: fmt.Sprint(gotV, errV)})
+					}
 				}
 				if c.HasSeen && strings.Join(SortedCopy(c.Seen), "\n") != strings.Join(SortedCopy(got), "\n") {
 					res.Fail(Failure{Kind: "oracle", Sig: "C13:handles-disagree", Detail: fmt.Sprintf("two handles see different data at commit %s", c.ID), Replay: map[string]any{"pool": cfg.String(), "history": lr.Log, "first": c.Seen, "second": got}, Expected: strings.Join(c.Seen, " "), Observed: strings.Join(got, " ")})
@@ -386,6 +398,26 @@ func c13(o Opts) error {
 		}
 		res.Distinctly(cfg.String() + strings.Join(kinds, ","))
 	}
+	// directed: commits whose objects all have vector copies, followed by vector
+	// operations that are refused (repeated add), partly refused, undone and redone,
+	// with loads in between: the vectorized read of every earlier commit must not change
+	ld := func(b string, base int) HOp {
+		return HOp{Kind: "load", Branch: b, Vals: []string{fmt.Sprintf("{k:%d,j:0,id:%d}", base%7, base), fmt.Sprintf("{k:%d,j:1,id:%d}", (base+3)%7, base+1)}}
+	}
+	vec := func(kind string, picks ...int) HOp { return HOp{Kind: kind, Branch: "main", Picks: picks} }
+	for di, sc := range [][]HOp{
+		{ld("main", 10), ld("main", 20), vec("vecadd", 0, 1), ld("main", 30), vec("vecadd", 0, 1), ld("main", 40), vec("vecadd", 1), vec("vecadd", 2, 0)},
+		{ld("main", 10), vec("vecadd", 0), vec("vecadd", 0), {Kind: "branch", Branch: "main", Other: "b1", Commit: 2}, ld("b1", 50), {Kind: "vecadd", Branch: "b1", Picks: []int{0}}, {Kind: "vecadd", Branch: "b1", Picks: []int{1, 0}}, ld("main", 60)},
+		{ld("main", 10), ld("main", 20), vec("vecadd", 0, 1), vec("vecdel", 0), vec("vecadd", 0), vec("vecadd", 0), vec("vecdel", 1), vec("vecdel", 1), ld("main", 30)},
+	} {
+		for _, desc := range []bool{false, true} {
+			if err := runHistory(res, PoolCfg{Key: "k", Desc: desc, Stride: 1, Thresh: 1}, sc); err != nil {
+				return err
+			}
+			res.Count("directed_vector_histories")
+			res.Distinctly(fmt.Sprintf("directed-vectors:%d:%v", di, desc))
+		}
+	}
 	if err := commitIDsVersusNames(res); err != nil {
 		return err
 	}
@@ -394,7 +426,7 @@ func c13(o Opts) error {
 			return err
 		}
 	}
-	res.Rule = "histories over {load, delete, delete-where, compact, vector add/del, vacuum, branch, merge, revert}: after every operation every commit created so far is re-queried through the acting handle and through a second handle with warm caches and must return what it returned first (commits whose objects were explicitly vacuumed excepted); reader isolation: a query is started, then a batch of writer operations (second handle, same storage) is injected at its k-th storage operation for first/last/middle/random k, and the reader must return exactly its commit's data"
+	res.Rule = "every commit is also read through the vector path (`sum(id)` at parallelism 2) after every operation and must agree with its plain scan; directed histories with repeated (refused), partial, undone and redone vector adds; histories over {load, delete, delete-where, compact, vector add/del, vacuum, branch, merge, revert}: after every operation every commit created so far is re-queried through the acting handle and through a second handle with warm caches and must return what it returned first (commits whose objects were explicitly vacuumed excepted); reader isolation: a query is started, then a batch of writer operations (second handle, same storage) is injected at its k-th storage operation for first/last/middle/random k, and the reader must return exactly its commit's data"
 	var sb strings.Builder
 	sb.WriteString("From ZV Require Import Base.Prelude Model.Merge Model.Commits Model.CommitsCases.\n")
 	if len(commitCases) > 60 && o.Tier != "thorough" {
